@@ -19,6 +19,13 @@ Scope (anything else raises TranslationError = broken tie for the properties tha
   * `if c: x = a; y = b` chains on variables that are NOT bound before: the variables become `Option`
     (Python: unbound local), every later use binds them, an unbound use is the result `none`.
 
+`PatchesKang.__init__` (sparrowpy/classes/RadiosityKang.py) carries a copy of the same loop; it is translated by
+the same rules plus: `polygon.pts` is the array parameter; `np.min(A, axis=0)` / `np.max(A, axis=0)` are rank-1;
+a Python list filled by `.append` is a length and an array (content beyond the length arbitrary: parameter
+`patches_init`); `Polygon(points, …)` stands for its points (`Polygon.__init__` stores `np.array(points)`); the
+result is what is assigned to `self.patches`; statements that only assign other `self.` attributes, call
+`Polygon.__init__`, or assert are skipped (they cannot change a local).
+
 The equality of the generated functions with the hand-written model (`Model/Patches.lean`: `grid`,
 `patchOf`, `totalPatches`) is PROVED in `Proofs/PatchKernelEquiv.lean` and re-checked on every run."""
 import ast
@@ -29,7 +36,22 @@ SPEC = {
     '_total_number_of_patches': {'lean': 'totalNumberOfPatches', 'array': 'polygon_points', 'scalar': 'max_size'},
     '_create_patches': {'lean': 'createPatches', 'array': 'polygon_points', 'scalar': 'max_size'},
 }
-ORDER = ['_total_number_of_patches', '_create_patches']
+KANG = 'sparrowpy/classes/RadiosityKang.py'
+SPEC['PatchesKang.__init__'] = {'lean': 'patchesKangInit', 'array': 'polygon_pts', 'scalar': 'max_size', 'file': KANG,
+                                'cls': 'PatchesKang', 'name': '__init__', 'alias': {'polygon.pts': 'polygon_pts'},
+                                'result': 'self.patches', 'skip_self': True}
+ORDER = ['_total_number_of_patches', '_create_patches', 'PatchesKang.__init__']
+
+
+class _Alias(ast.NodeTransformer):
+    def __init__(self, table):
+        self.table = table
+
+    def visit_Attribute(self, node):
+        d = dotted(node)
+        if d in self.table:
+            return ast.copy_location(ast.Name(id=self.table[d], ctx=node.ctx), node)
+        return self.generic_visit(node)
 
 
 def ty(kind):
@@ -50,10 +72,17 @@ class T:
         self.junk_known = list(junk_known)
         self.tail = None
         self.spec = SPEC[pyname]
-        self.fn = func(GEOM, pyname)
+        self.file = self.spec.get('file', GEOM)
+        import copy
+        self.fn = copy.deepcopy(func(self.file, self.spec.get('name', pyname), self.spec.get('cls')))
         args = [a.arg for a in self.fn.args.args]
-        if args != [self.spec['array'], self.spec['scalar']]:
+        if self.spec.get('alias'):
+            if self.spec['scalar'] not in args or 'polygon' not in args:
+                raise TranslationError('%s: parameters are %s' % (pyname, args))
+            self.fn = _Alias(self.spec['alias']).visit(self.fn)
+        elif args != [self.spec['array'], self.spec['scalar']]:
             raise TranslationError('%s: parameters are %s' % (pyname, args))
+        self.lists = {}
         A = self.spec['array']
         self.env = {A: ('arr', 2, 'float'), self.spec['scalar']: 'float'}
         self.shape = {A: ['%s_shape_0' % A, '%s_shape_1' % A]}
@@ -150,7 +179,14 @@ class T:
                 if isinstance(self.env.get(a), tuple) and self.env[a][1] == 2 and not isinstance(e.slice, (ast.Slice, ast.Tuple)):
                     return '(fun v_ => %s v_ (%s))' % (a, self.nat(e.slice)), self.shape[a][0], self.env[a][2]
             self.err('rank-1 view', e)
-        if isinstance(e, ast.BinOp) and isinstance(e.op, ast.Div):
+        if isinstance(e, ast.Call) and dotted(e.func) in ('np.min', 'np.max') and len(e.args) == 1 and len(e.keywords) == 1 \
+                and e.keywords[0].arg == 'axis' and isinstance(e.keywords[0].value, ast.Constant) and e.keywords[0].value.value == 0 \
+                and isinstance(e.args[0], ast.Name) and isinstance(self.env.get(e.args[0].id), tuple) and self.env[e.args[0].id][1] == 2:
+            a = e.args[0].id
+            red = 'minOver' if dotted(e.func) == 'np.min' else 'maxOver'
+            return '(fun a_ => %s (fun v_ => %s v_ a_) (%s))' % (red, a, self.shape[a][0]), self.shape[a][1], self.env[a][2]
+        if isinstance(e, ast.BinOp) and isinstance(e.op, (ast.Div, ast.Sub)):
+            opc = '/' if isinstance(e.op, ast.Div) else '-'
             la, lb = self.is_rank1(e.left), self.is_rank1(e.right)
             if la:
                 f, n, kf = self.view1(e.left)
@@ -170,7 +206,7 @@ class T:
                 fa = '((%s : Nat) : α)' % fa
             if kg == 'nat':
                 gb = '((%s : Nat) : α)' % gb
-            return '(fun j_ => %s / %s)' % (fa, gb), n, 'float'
+            return '(fun j_ => %s %s %s)' % (fa, opc, gb), n, 'float'
         if isinstance(e, ast.Call) and dotted(e.func) == 'np.array' and len(e.args) == 1 and not e.keywords \
                 and isinstance(e.args[0], ast.ListComp):
             lc = e.args[0]
@@ -192,6 +228,8 @@ class T:
         if isinstance(e, ast.Name):
             k = self.env.get(e.id)
             return isinstance(k, tuple) and k[1] == 1
+        if isinstance(e, ast.Call) and dotted(e.func) in ('np.min', 'np.max') and e.keywords:
+            return True
         return isinstance(e, (ast.Subscript, ast.BinOp)) and not self._is_scalar(e)
 
     def _is_scalar(self, e):
@@ -219,6 +257,8 @@ class T:
                 out.append(s.target.id)
             elif isinstance(s, ast.For):
                 out += self.assigned(s.body)
+            elif self.is_append(s):
+                out += [s.value.func.value.id, s.value.func.value.id + '_len']
             else:
                 out.append(None)
         if None in out:
@@ -228,6 +268,32 @@ class T:
             if v not in seen:
                 seen.append(v)
         return seen
+
+    def is_append(self, s):
+        return isinstance(s, ast.Expr) and isinstance(s.value, ast.Call) and isinstance(s.value.func, ast.Attribute) \
+            and s.value.func.attr == 'append' and isinstance(s.value.func.value, ast.Name) \
+            and s.value.func.value.id in self.lists and len(s.value.args) == 1 and not s.value.keywords
+
+    def skippable(self, s):
+        """Statements that cannot change a local variable: `self.x = …` (no call that could mutate a tracked array:
+        only np.atleast_1d / np.array / plain names), `Polygon.__init__(…)`, `assert`, `if … : <skippable>*`."""
+        if not self.spec.get('skip_self'):
+            return False
+        if isinstance(s, ast.Assert):
+            return True
+        if isinstance(s, ast.Expr) and isinstance(s.value, ast.Call) and dotted(s.value.func) == 'Polygon.__init__':
+            return True
+        if isinstance(s, ast.Assign) and len(s.targets) == 1 and isinstance(s.targets[0], ast.Attribute) \
+                and isinstance(s.targets[0].value, ast.Name) and s.targets[0].value.id == 'self' \
+                and dotted(s.targets[0]) != self.spec.get('result'):
+            for c in ast.walk(s.value):
+                if isinstance(c, ast.Call) and dotted(c.func) not in ('np.atleast_1d', 'np.array'):
+                    return False
+            return True
+        if isinstance(s, ast.If) and isinstance(s.test, ast.Compare) and isinstance(s.test.left, ast.Name) \
+                and s.test.left.id not in self.env and not s.orelse:
+            return all(self.skippable(b) for b in s.body)
+        return False
 
     def bind_optionals(self):
         """Before anything other than another conditional definition: bind every Option variable; what
@@ -254,6 +320,10 @@ class T:
     def stmt(self, s):
         if isinstance(s, ast.Expr) and isinstance(s.value, ast.Constant) and isinstance(s.value.value, str):
             return
+        if self.skippable(s):
+            return
+        if self.returned:
+            self.err('statement after the result', s)
         if isinstance(s, ast.If):
             # conditional definition of fresh integer variables
             if s.orelse or not all(isinstance(b, ast.Assign) and len(b.targets) == 1 and isinstance(b.targets[0], ast.Name)
@@ -270,8 +340,43 @@ class T:
                 self.emit('let %s : Option Nat := if %s then some %d else %s' % (v, c, b.value.value, v))
             return
         self.bind_optionals()
+        if self.is_append(s):
+            v = s.value.func.value.id
+            x = s.value.args[0]
+            k = self.lists[v]
+            if not (isinstance(x, ast.Name) and self.env.get(x.id) == ('arr', k[1] - 1, k[2])):
+                self.err('append of something else than an array of rank %d' % (k[1] - 1), s)
+            ps = ['p%d' % d for d in range(k[1])]
+            self.emit('let %s : %s := fun %s => if p0 = %s_len then %s %s else %s %s'
+                      % (v, ty(k), ' '.join(ps), v, x.id, ' '.join(ps[1:]), v, ' '.join(ps)))
+            self.emit('let %s_len := %s_len + 1' % (v, v))
+            return
+        if isinstance(s, ast.Assign) and len(s.targets) == 1 and dotted(s.targets[0]) == self.spec.get('result', '\0'):
+            v = s.value
+            if not (isinstance(v, ast.Name) and v.id in self.lists):
+                self.err('result', s)
+            self.ret_ty = 'Option (Nat × %s)' % ty(self.lists[v.id])
+            self.emit('some (%s_len, %s)' % (v.id, v.id))
+            self.returned = True
+            return
         if isinstance(s, ast.Assign) and len(s.targets) == 1:
             t = s.targets[0]
+            if isinstance(t, ast.Name) and isinstance(s.value, ast.List) and not s.value.elts:
+                # a list of rank-2 arrays: a length and an array whose content beyond the length is arbitrary
+                kind = ('arr', 3, 'float')
+                self.junk.append((t.id + '_init', kind))
+                self.emit('let %s : %s := %s_init' % (t.id, ty(kind), t.id))
+                self.emit('let %s_len : Nat := 0' % t.id)
+                self.env[t.id], self.env[t.id + '_len'] = kind, 'nat'
+                self.shape[t.id] = [t.id + '_len', None, None]
+                self.lists[t.id] = kind
+                return
+            if isinstance(t, ast.Name) and isinstance(s.value, ast.Call) and dotted(s.value.func) == 'Polygon' \
+                    and s.value.args and isinstance(s.value.args[0], ast.Name) and isinstance(self.env.get(s.value.args[0].id), tuple):
+                a = s.value.args[0].id
+                self.emit('let %s : %s := %s' % (t.id, ty(self.env[a]), a))
+                self.env[t.id], self.shape[t.id] = self.env[a], list(self.shape[a])
+                return
             if isinstance(t, ast.Name):
                 return self.assign_name(t.id, s.value)
             if isinstance(t, ast.Subscript) and isinstance(t.value, ast.Name):
@@ -284,7 +389,7 @@ class T:
             return
         if isinstance(s, ast.For):
             return self.loop(s)
-        if isinstance(s, ast.Return):
+        if isinstance(s, ast.Return) and not self.spec.get('result'):
             return self.ret(s)
         self.err('statement', s)
 
@@ -391,8 +496,6 @@ class T:
         self.returned = False
         body = list(self.fn.body)
         for i, s in enumerate(body):
-            if self.returned:
-                self.err('statement after return', s)
             self.stmt(s)
         if not self.returned:
             self.err('no return')
@@ -404,14 +507,14 @@ class T:
         note = '; the `_init` parameters are the contents of the `np.empty` buffers' if junk else ''
         text = []
         if self.tail:
-            text += ['/-- translated from `%s` (%s): the statements after the conditionally bound variables are bound%s -/' % (self.py, GEOM, note),
+            text += ['/-- translated from `%s` (%s): the statements after the conditionally bound variables are bound%s -/' % (self.py, self.file, note),
                      'def %s_tail %s' % (self.spec['lean'], cls),
                      '    ' + ' '.join(params + ['(%s : %s)' % (v, ty(k)) for v, k in self.tail_vars]) + ' :',
                      '    %s :=' % self.ret_ty] + self.out + ['']
             body = self.head_out
         else:
             body = self.out
-        text += ['/-- translated from `%s` (%s)%s -/' % (self.py, GEOM, note),
+        text += ['/-- translated from `%s` (%s)%s -/' % (self.py, self.file, note),
                  'def %s %s' % (self.spec['lean'], cls),
                  '    ' + ' '.join(params) + ' :',
                  '    %s :=' % self.ret_ty] + body
@@ -419,7 +522,7 @@ class T:
 
 
 def generate():
-    parts = ['/- GENERATED by harness/translate/patches.py from %s -- do not edit. -/' % GEOM,
+    parts = ['/- GENERATED by harness/translate/patches.py from %s and %s -- do not edit. -/' % (GEOM, KANG),
              'import Sparrow.Model.Patches', 'set_option linter.unusedVariables false',
              'namespace Sparrow.Generated.Patches', 'open Sparrow', 'variable {α : Type}', '']
     facts = {}
